@@ -16,12 +16,10 @@ func processIntoGroups(d *dataTreeNavigator, context Context, rhsExp *Expression
 			return nil, err
 		}
 
-		keyValue := "null"
-
-		if rhs.MatchingNodes.Len() > 0 {
-			first := rhs.MatchingNodes.Front()
-			keyCandidate := first.Value.(*CandidateNode)
-			keyValue = keyCandidate.Value
+		// the same key as unique_by uses: a map or a sequence is keyed by its content, not by its (empty) value
+		keyValue, err := getUniqueKeyValue(rhs)
+		if err != nil {
+			return nil, err
 		}
 
 		groupList, exists := newMatches.Get(keyValue)
